@@ -36,6 +36,8 @@ func (z *vZone) install() {
 		q := vQuery{d.Question[0].Name, d.Question[0].Type}
 		for _, l := range strings.Split(q.name, ".") {
 			vAssert(len(l) <= 63, "no query carries a label longer than 63 bytes")
+			vAssert(len(l) > 0 || q.name == "", "no query carries an empty label inside a name")
+			vAssert(!strings.ContainsAny(l, ":%/[]@ "), "no query label carries URL or address syntax (':', '%', '/', brackets, '@', space)")
 		}
 		vAssert(len(q.name) <= 253, "no query name is longer than 253 bytes (255 on the wire)")
 		z.queries = append(z.queries, q)
@@ -614,4 +616,34 @@ func verifC14Loops() {
 	}
 	vAssert(len(res.Address) == 1 && res.Address[0].To4()[3] == 'o', "after an alias loop the queried host's own addresses are returned")
 	vReach("loops")
+}
+
+// verifC14BadForms: inputs that are no host name - an empty label, a port that is
+// not a 16-bit number, an empty host, an IPv6 literal with a zone - are refused
+// with ErrInvalidName (or, for the zone literal, answered without the DNS); no
+// query is ever made for them.  URL forms with user info / upper-case scheme
+// resolve under the right RFC 9460 name.
+func verifC14BadForms() {
+	bad := []string{"a..example.com", ".example.com", "example.com:65536", "example.com:-1", "example.com:", ":443",
+		"example.com:8443x", "https://example.com:99999/", "[fe80::1%eth0]:443", "https://[fe80::1%25eth0]/"}
+	good := []struct{ in, qname string }{
+		{"https://user:pw@example.com:8443/", "_8443._https.example.com"},
+		{"HTTP://example.com:8080", "_8080._https.example.com"},
+	}
+	i := vInt(0, len(bad)+len(good)-1)
+	z := &vZone{}
+	z.answer = func(q vQuery) (*dns.Message, error) { return &dns.Message{QR: 1}, nil }
+	z.install()
+	r := &Resolver{}
+	if i < len(bad) {
+		res, err := r.Resolve(context.Background(), bad[i])
+		vAssert(len(z.queries) == 0, "no DNS query is made for an input that is not a host name")
+		vAssert(errors.Is(err, ErrInvalidName) || (err == nil && len(res.Address) > 0 && i >= 8), "an input that is not a host name is refused with ErrInvalidName")
+		vReach("bad-refused")
+		return
+	}
+	g := good[i-len(bad)]
+	_, err := r.Resolve(context.Background(), g.in)
+	vAssert(err == nil && len(z.queries) == 3 && z.queries[0].name == g.qname && z.queries[1].name == "example.com", "URL forms resolve under their RFC 9460 query name and bare host")
+	vReach("good-form")
 }
